@@ -105,6 +105,8 @@ pub struct WorldCfg {
     pub padding: u8,
     /// per-party variation of the commit/encryption options (party index parity flips them)
     pub vary_options: bool,
+    /// parties whose id is a multiple of this (if non-zero) publish last-resort key packages
+    pub last_resort_every: usize,
 }
 
 impl WorldCfg {
@@ -122,6 +124,7 @@ impl WorldCfg {
             encrypt_handshake: false,
             padding: 0,
             vary_options: false,
+            last_resort_every: 0,
         }
     }
     pub fn to_json(&self) -> serde_json::Value {
@@ -305,6 +308,8 @@ pub struct CommitInfo {
     pub welcome_bytes: Vec<Vec<u8>>,
     pub external: bool,
     pub unused: usize,
+    /// ratchet tree delivered out of band (None when it travels in the Welcome's GroupInfo extension)
+    pub tree_oob: Option<Vec<u8>>,
 }
 
 impl World {
@@ -329,6 +334,10 @@ impl World {
             twin_failure: None,
             twin_checks: 0,
         }
+    }
+
+    pub fn is_last_resort(&self, p: usize) -> bool {
+        self.cfg.last_resort_every > 0 && p % self.cfg.last_resort_every == 0
     }
 
     pub fn count(&mut self, k: &str) {
@@ -490,11 +499,12 @@ impl World {
     pub fn key_package(&mut self, p: usize) -> Result<MlsMessage, OpErr> {
         let t = self.now();
         let party = &self.parties[p];
-        let kp = guard(|| {
-            party
-                .client
-                .generate_key_package_message(ExtensionList::default(), ExtensionList::default(), Some(t))
-        })?;
+        let mut kp_ext = ExtensionList::default();
+        if self.is_last_resort(p) {
+            use mls_rs::extension::MlsExtension;
+            kp_ext.set(mls_rs::extension::recommended::LastResortKeyPackageExt.into_extension().expect("ext"));
+        }
+        let kp = guard(|| party.client.generate_key_package_message(kp_ext, ExtensionList::default(), Some(t)))?;
         let bytes = kp.to_bytes().map_err(|e| OpErr::Mls(format!("{e:?}")))?;
         self.log_wire("key_package", &bytes);
         self.last_kp.insert(p, bytes);
@@ -983,6 +993,7 @@ impl World {
             welcome_bytes,
             external: false,
             unused: out.unused_proposals.len(),
+            tree_oob,
         }))
     }
 
@@ -1107,6 +1118,7 @@ impl World {
             welcome_bytes: vec![],
             external: true,
             unused: 0,
+            tree_oob: None,
         }))
     }
 
